@@ -34,6 +34,11 @@ type Weights struct {
 	SnipePct int
 	// DonateWaitingPct: chance that a donation goes to the selling escrow of a waiting auction.
 	DonateWaitingPct int
+	// Bidders limits the number of distinct accounts that get allow-listed (0 = all 7): fewer
+	// bidders means more bids per bidder.
+	Bidders int
+	// RoundsPool overrides the pool the maximum number of extended rounds is drawn from.
+	RoundsPool []int
 }
 
 // DefaultWeights is the general mix.
@@ -474,7 +479,11 @@ func (g *Gen) genCreate(t *rapid.T, w *World, s *Snap, kind string) Op {
 		if g.W.Extreme && pct(t, 40, "extreme-min-price") {
 			o.MinPrice = mstr(bi(int64(rapid.IntRange(1, 9).Draw(t, "xmin"))))
 		}
-		o.MaxRounds = uint32(pick(t, "max-rounds", []int{0, 0, 1, 1, 2, 3, 5, 30}))
+		pool := []int{0, 0, 1, 1, 2, 3, 5, 30}
+		if len(g.W.RoundsPool) > 0 {
+			pool = g.W.RoundsPool
+		}
+		o.MaxRounds = uint32(pick(t, "max-rounds", pool))
 		o.Rate = mstr(g.drawRateM(t))
 		g.label(fmt.Sprintf("create:maxrounds=%d", o.MaxRounds))
 	}
@@ -606,7 +615,11 @@ func (g *Gen) perturbCreate(t *rapid.T, w *World, s *Snap, o *Op) {
 
 func (g *Gen) genAddAllowed(t *rapid.T, w *World, s *Snap) Op {
 	a := pick(t, "aa-auction", s.Auctions)
-	o := Op{Kind: OpAddAllowed, Auction: a.ID, Bidder: uni(t, "aa-bidder", Outsider)}
+	nb := Outsider
+	if g.W.Bidders > 0 && g.W.Bidders < nb {
+		nb = g.W.Bidders
+	}
+	o := Op{Kind: OpAddAllowed, Auction: a.ID, Bidder: uni(t, "aa-bidder", nb)}
 	switch uni(t, "aa-max-mode", 6) {
 	case 0, 1:
 		o.MaxBid = a.SellAmt.String() // not binding
